@@ -21,7 +21,11 @@ type Node struct {
 	Dir      bool    `json:"d,omitempty"`
 	Content  string  `json:"c,omitempty"`
 	Children []*Node `json:"k,omitempty"`
+	Link     bool    `json:"l,omitempty"` // a symbolic link (modelled as a file whose content is the link target)
 }
+
+// a directory outside every tree, holding generated files and a manifest, that symbolic links point to
+var outsideDir string
 
 type module struct {
 	name     string
@@ -45,6 +49,7 @@ const (
 	kEmptyDir
 	kManifestDirEmpty // a directory named like the manifest, empty
 	kManifestDirFull  // a directory named like the manifest holding a user file: os.Remove fails, the clean aborts
+	kSymlinkDir       // a symbolic link to a directory OUTSIDE the tree that holds generated files: must be left alone, and so must its target
 	kNested
 )
 
@@ -59,7 +64,8 @@ func leafNode(m *module, kind, pos int, salt string) *Node {
 		return &Node{Name: p + "custom.go", Content: "package x // " + salt}
 	case kOther:
 		// names that merely resemble owned ones
-		alts := []string{p + m.suffix + ".bak", p + "notes.txt", p + "gr.go", p + strings.TrimPrefix(m.suffix, ".")}
+		alts := []string{p + m.suffix + ".bak", p + "notes.txt", p + "gr.go", p + strings.TrimPrefix(m.suffix, "."),
+			p + "fixtures.gr.json", p + "x" + filepath.Ext(m.manifest), p + m.manifest, "x" + m.manifest + ".orig"}
 		return &Node{Name: alts[pos%len(alts)], Content: salt}
 	case kEmptyDir:
 		return &Node{Name: p + "dir", Dir: true}
@@ -67,6 +73,8 @@ func leafNode(m *module, kind, pos int, salt string) *Node {
 		return &Node{Name: m.manifest, Dir: true}
 	case kManifestDirFull:
 		return &Node{Name: m.manifest, Dir: true, Children: []*Node{{Name: "keep.go", Content: "user"}}}
+	case kSymlinkDir:
+		return &Node{Name: p + "link", Content: "-> " + outsideDir, Link: true}
 	}
 	panic("kind")
 }
@@ -127,7 +135,7 @@ func randomTree(m *module, r *hx.Rand, d, w int) []*Node {
 	n := r.Intn(w + 1)
 	var out []*Node
 	for pos := 0; pos < n; pos++ {
-		k := r.Intn(9)
+		k := r.Intn(10)
 		if k >= kNested {
 			if d > 1 {
 				out = append(out, &Node{Name: fmt.Sprintf("%c%dsub", 'a'+pos, pos), Dir: true, Children: randomTree(m, r, d-1, w)})
@@ -153,6 +161,8 @@ func build(dir string, cs []*Node) {
 		if n.Dir {
 			must(os.Mkdir(p, 0o755))
 			build(p, n.Children)
+		} else if n.Link {
+			must(os.Symlink(strings.TrimPrefix(n.Content, "-> "), p))
 		} else {
 			must(os.WriteFile(p, []byte(n.Content), 0o644))
 		}
@@ -170,7 +180,11 @@ func snapshot(dir string) ([]*Node, bool) {
 	out := []*Node{}
 	for _, e := range es {
 		p := filepath.Join(dir, e.Name())
-		if e.IsDir() {
+		if e.Type()&os.ModeSymlink != 0 {
+			tgt, err := os.Readlink(p)
+			must(err)
+			out = append(out, &Node{Name: e.Name(), Content: "-> " + tgt, Link: true})
+		} else if e.IsDir() {
 			cs, _ := snapshot(p)
 			out = append(out, &Node{Name: e.Name(), Dir: true, Children: cs})
 		} else {
@@ -180,6 +194,25 @@ func snapshot(dir string) ([]*Node, bool) {
 		}
 	}
 	return out, true
+}
+
+func makeOutside() {
+	os.RemoveAll(outsideDir)
+	must(os.MkdirAll(outsideDir, 0o755))
+	for _, m := range modules {
+		os.WriteFile(filepath.Join(outsideDir, "elsewhere"+m.suffix), []byte("generated elsewhere"), 0o644)
+		os.WriteFile(filepath.Join(outsideDir, m.manifest), []byte("{}"), 0o644)
+	}
+	os.WriteFile(filepath.Join(outsideDir, "user.go"), []byte("package x"), 0o644)
+	out, _ := snapshot(outsideDir)
+	outsideWant = jsonOf(out)
+}
+
+var outsideWant string
+
+func jsonOf(v interface{}) string {
+	b, _ := json.Marshal(v)
+	return string(b)
 }
 
 func must(err error) {
@@ -251,6 +284,10 @@ func runCase(m *module, scratch string, exists, dot bool, tree []*Node, rep *hx.
 		must(os.Chdir(scratch))
 	}
 	after, afterEx := snapshot(target)
+	if out, _ := snapshot(outsideDir); jsonOf(out) != outsideWant {
+		rep.Fail("followed-symlink", "cleaning followed a symbolic link and removed files outside the target tree", m.name+"/codegen/utils/codefile.go:CleanTargetDir", map[string]interface{}{"tree": tree, "outside_after": out}, nil)
+		makeOutside()
+	}
 	d := caseDesc{Module: m.name, Exists: exists, Dot: dot, Tree: tree, After: after, AfterEx: afterEx, Ok: err == nil}
 	if err != nil {
 		d.ErrText = err.Error()
@@ -358,6 +395,8 @@ func main() {
 	scratch, err := os.MkdirTemp("", "verif-c20-")
 	must(err)
 	defer os.RemoveAll(scratch)
+	outsideDir = filepath.Join(scratch, "outside")
+	makeOutside()
 	header := "From Coq Require Import List. Import ListNotations.\nFrom Coq.Strings Require Import Byte.\nFrom GR Require Import Base.Bytes Gen2.Clean Corr.C20Corr.\n"
 	sh := hx.NewShards(cfg.Out, header, "C20Corr", 250)
 
@@ -379,7 +418,7 @@ func main() {
 		return
 	}
 
-	allKinds := []int{kGen, kManifest, kUser, kOther, kEmptyDir, kManifestDirEmpty, kManifestDirFull}
+	allKinds := []int{kGen, kManifest, kUser, kOther, kEmptyDir, kManifestDirEmpty, kManifestDirFull, kSymlinkDir}
 	fewKinds := []int{kGen, kUser, kEmptyDir}
 	r := hx.NewRand(cfg.Seed)
 	for i := range modules {
